@@ -128,11 +128,26 @@ func init() {
 				if len(prefix) == maxLen {
 					return
 				}
-				for _, b := range c12Behaviours {
+				for _, b := range c12Behaviours[:7] { // exhaustive over the first seven; the rest of the Abort family below
 					rec(append(append([]string(nil), prefix...), b))
 				}
 			}
 			rec(nil)
+			// every member of the Abort family at every position of chains of up to four handlers
+			for _, ab := range []string{"MGM", "MJM", "MRM", "MGMNM", "MSM"} {
+				for n := 1; n <= 4; n++ {
+					for pos := 0; pos < n; pos++ {
+						for _, other := range []string{"MNM", "M", "MNMNM"} {
+							ps := make([]string, n)
+							for j := range ps {
+								ps[j] = other
+							}
+							ps[pos] = ab
+							t.Do(In{S(strings.Join(ps, ","))}, true)
+						}
+					}
+				}
+			}
 			// longer chains and denser programs, random
 			alpha := "NAMSGJR"
 			for i := 0; i < t.Scale(3000, 60000); i++ {
@@ -142,7 +157,7 @@ func init() {
 					k := t.R.Intn(5)
 					b := make([]byte, k)
 					for x := range b {
-						b[x] = alpha[t.R.Intn(4)]
+						b[x] = alpha[t.R.Intn(len(alpha))]
 					}
 					ps[j] = "M" + string(b)
 				}
